@@ -96,4 +96,13 @@ PROPS = {
                  "subtle.ConstantTimeCompare = byte equality", "when the cookie is absent the fresh token is unguessable (a client token equal to it is not generated)"],
         assumptions=["custom ErrorHandler and Skipper are outside the model"],
     ),
+    "C08": dict(
+        n_quick=8000, n_thorough=300000, incoq=150, gen=["Src_binder.v"],
+        level_text="Theorems C08_* (Props/C08.v): the models of ParseInt/ParseUint accept exactly an optional sign plus ASCII digits whose value fits the width, for every string and width; every entry of the tables regenerated from binder.go/bind.go on each run (all exported int/uint/float scalar and slice methods; the numeric kinds of setWithProperType) hands strconv the width of its destination and converts through the same width, hence a call without error stored exactly the denoted number (no wrap), a failing call leaves the destination unchanged, empty text is absent (value binder) or zero (struct), and in fail-fast mode nothing is written after the first error. Model compared with the real binders on boundary texts for every method found by reflection.",
+        technique="Coq proofs over all strings (decimal exactness; wrap = identity in range) + go/ast-generated method/kind tables re-checked by reflection (vm_compute) + differential correspondence",
+        trusted=["strconv.ParseInt/ParseUint/ParseBool are modelled (validated by the correspondence); ParseFloat, time.ParseDuration, time parsing and Text/Bind/JSON unmarshalers are oracles: for floats/bools the harness compares with strconv at the destination's width (implementation-only predicate), durations/times are not exercised",
+                 "Go's type checker guarantees that a type-switch arm's conversion has the destination's type (so conversion width = destination width)",
+                 "reflect.SetInt/SetUint truncate to the field width (modelled as wrap)"],
+        assumptions=["int/uint are 64 bit (bitSize 0)", "BindWithDelimiter and CustomFunc variants are not modelled"],
+    ),
 }
